@@ -41,7 +41,7 @@ def strategy(tier):
         "module": G.module(p), "layout": G.layout_choices(24),
         "faults": st.lists(plan, min_size=1, max_size=2),
         "mode": st.sampled_from(["file", "file", "file", "dir", "multi-first", "multi-middle", "subdir", "dir-twin", "multi-prefix"]),
-        "flags": st.sampled_from(["default", "default", "all-off", "some-off"]),
+        "flags": st.sampled_from(["default", "log-debug", "all-off", "some-off", "default", "log-file"]),
         "exhaustive": st.just(tier == "thorough"),
     })
 
@@ -156,11 +156,24 @@ def run_one(text, mode, res, kind, ctx, flags="default"):
             argv = [good[0], bad, good[1], "-o", out]
         else:
             argv = [bad, "-o", out]
-        if flags != "default":
+        if flags in ("all-off", "some-off"):
             off = FLAG_NAMES if flags == "all-off" else FLAG_NAMES[::2]
             cfg = sb.path("flags.yaml")
             with open(cfg, "w") as f:
                 f.write("input:\n" + "".join(f"  include_undocumented_{k}: false\n" for k in off))
+            argv += ["-s", cfg]
+        elif flags in ("log-debug", "log-file"):
+            # the logging section of the settings (any dictConfig): everything at DEBUG on the console, or into a log file
+            cfg = sb.path("logging.yaml")
+            handler = ("    console:\n      class: logging.StreamHandler\n      level: DEBUG\n      formatter: simple\n"
+                       "      stream: ext://sys.stdout\n") if flags == "log-debug" else \
+                      ("    console:\n      class: logging.FileHandler\n      level: DEBUG\n      formatter: simple\n"
+                       f"      filename: {sb.path('cminx-log.txt')}\n      mode: w\n")
+            with open(cfg, "w") as f:
+                f.write("logging:\n  version: 1\n  formatters:\n    simple:\n      format: '%(name)s - %(levelname)s - %(message)s'\n"
+                        "  handlers:\n" + handler +
+                        "  loggers:\n    cminx:\n      level: DEBUG\n      handlers:\n        - console\n      propagate: no\n"
+                        "  root:\n    level: DEBUG\n    handlers:\n      - console\n")
             argv += ["-s", cfg]
         r = S.run_main(argv, cwd=sb.path("cwd"))
         page = os.path.join(out, "deeper", "faulty.rst") if mode == "subdir" else os.path.join(out, "faulty.rst")
